@@ -113,7 +113,15 @@ func runHist(t *testing.T, id, tier string, scens []*hist.Scenario) int {
 		if s := os.Getenv("VERIF_DEPTH"); s != "" {
 			sc.Depth, _ = strconv.Atoi(s)
 		}
-		st, viol, err := hist.Explore(sc, exe, []string{"-test.run", "^TestCheck$", "-test.timeout", "0"}, nWorkers(), deadline, 50)
+		var st hist.Stats
+		var viol []hist.Violation
+		var err error
+		if sc.Skeleton != nil {
+			sc.Skeleton.Scen = sc
+			st, viol, err = hist.RunSkeleton(sc.Skeleton, exe, []string{"-test.run", "^TestCheck$", "-test.timeout", "0"}, nWorkers(), deadline)
+		} else {
+			st, viol, err = hist.Explore(sc, exe, []string{"-test.run", "^TestCheck$", "-test.timeout", "0"}, nWorkers(), deadline, 50)
+		}
 		if err != nil {
 			fmt.Fprintf(os.Stderr, "check %s scenario %s: harness error: %v\n", id, sc.ID, err)
 			return 2
